@@ -44,6 +44,8 @@ func main() {
 		worker(os.Args[2:])
 	case "replay":
 		os.Exit(replay(os.Args[2]))
+	case "modelcal":
+		modelcal(len(os.Args) > 2)
 	default:
 		fmt.Println("unknown command", os.Args[1])
 		os.Exit(2)
